@@ -167,3 +167,7 @@ pub mod sha2 {
         }
     }
 }
+
+#[cfg(kani)]
+#[path = "/verif/units/kani/core_hasher.rs"]
+mod verif_kani;
